@@ -316,3 +316,154 @@ Fixpoint srun (fwd : bool) (evs : list sev) (s : st) (c : cursor) : option (st *
       end
   | SEdit e :: rest => srun fwd rest (fst (apply_edit e s)) c
   end.
+
+(* ====================================================================================================
+   RecursiveGraphIterator (traversal.py:21-118) over a forest of linked lists.
+   A graph id names a DoublyLinkedSet (`forest`); `subs x` = the graphs carried by node x's GRAPH/GRAPHS
+   attributes in the order the iterator visits them for its direction (attributes in dict order, a GRAPHS
+   list reversed when reverse=True) — read when the generator resumes after yielding x; fixed here.
+   The generator nest is a stack of frames (graph, flat cursor on it, subgraphs of the last yielded node
+   still to enter), top first.  Subgraph cursors are created lazily: a subgraph is entered at the next()
+   that needs it.  Callbacks are trace events; the code calls enter/exit TWICE per subgraph (once in
+   _iterate_subgraphs, once in the nested _recursive_node_iter) and once for the top graph.
+   Not modelled: the `recursive` predicate (None = visit everything), __iter__ resetting the iterator. *)
+Definition gid := nat.
+Definition forest := gid -> st.
+Definition upd (gs : forest) (g : gid) (s : st) : forest := fun h => if h =? g then s else gs h.
+Inductive cb := CEnter (g : gid) | CExit (g : gid).
+Definition frame := (gid * cursor * list gid)%type.
+Inductive rcursor := RFresh (g0 : gid) | RRun (stack : list frame).
+
+Section Rec.
+  Variable subs : elt -> list gid.
+  Variable fwd : bool.
+  Variable gs : forest.
+
+  (* enter the pending subgraphs in order until one yields a node *)
+  Fixpoint try_pending (pend : list gid) : option (option (gid * cursor * elt * list gid) * list cb) :=
+    match pend with
+    | [] => Some (None, [])
+    | h :: t =>
+        match step fwd (gs h) Fresh with
+        | None => None
+        | Some (c', Some x) => Some (Some (h, c', x, t), [CEnter h; CEnter h])
+        | Some (_, None) =>
+            match try_pending t with
+            | None => None
+            | Some (r, ev) => Some (r, [CEnter h; CEnter h; CExit h; CExit h] ++ ev)
+            end
+        end
+    end.
+
+  Fixpoint rnext_stack (stack : list frame) : option (list frame * option elt * list cb) :=
+    match stack with
+    | [] => Some ([], None, [])
+    | (g, c, pend) :: rest =>
+        match try_pending pend with
+        | None => None
+        | Some (Some (h, c', x, t), ev) => Some ((h, c', subs x) :: (g, c, t) :: rest, Some x, ev)
+        | Some (None, ev) =>
+            match step fwd (gs g) c with
+            | None => None
+            | Some (c', Some x) => Some ((g, c', subs x) :: rest, Some x, ev)
+            | Some (_, None) =>
+                let ex := match rest with [] => [CExit g] | _ => [CExit g; CExit g] end in
+                match rnext_stack rest with
+                | None => None
+                | Some (st', y, ev') => Some (st', y, ev ++ ex ++ ev')
+                end
+            end
+        end
+    end.
+
+  (* next(it) on a RecursiveGraphIterator *)
+  Definition rnext (rc : rcursor) : option (rcursor * option elt * list cb) :=
+    match rc with
+    | RFresh g0 =>
+        match rnext_stack [(g0, Fresh, [])] with
+        | None => None
+        | Some (st', y, ev) => Some (RRun st', y, CEnter g0 :: ev)
+        end
+    | RRun stack =>
+        match rnext_stack stack with
+        | None => None
+        | Some (st', y, ev) => Some (RRun st', y, ev)
+        end
+    end.
+End Rec.
+
+(* ---------- case runner for nested graphs *)
+Inductive rev_ :=
+| RNew (fwd : bool) | FNew (g : gid) (fwd : bool) | RStep (i : nat) | REdit (g : gid) (e : edit).
+Inductive riter := IFlat (g : gid) (fwd : bool) (c : cursor) | IRec (fwd : bool) (rc : rcursor).
+Definition rmstate := (forest * list riter)%type.
+Fixpoint assoc_subs (tbl : list (elt * list gid)) (x : elt) : list gid :=
+  match tbl with [] => [] | (y, l) :: t => if y =? x then l else assoc_subs t x end.
+Definition cb_code (c : cb) : nat := match c with CEnter g => 2 * g | CExit g => S (2 * g) end.
+
+Section RecRun.
+  Variables (tf tb : list (elt * list gid)).     (* subs tables for forward / reverse traversal *)
+  Definition subs_for (fwd : bool) := assoc_subs (if fwd then tf else tb).
+
+  Definition rrun_ev (m : rmstate) (e : rev_) : rmstate * res (option elt) * list nat :=
+    let '(gs, its) := m in
+    match e with
+    | RNew fwd => ((gs, its ++ [IRec fwd (RFresh 0)]), Ok None, [])
+    | FNew g fwd => ((gs, its ++ [IFlat g fwd Fresh]), Ok None, [])
+    | RStep i =>
+        match nth_error its i with
+        | None => (m, Raise OtherError, [])
+        | Some (IFlat g fwd c) =>
+            match step fwd (gs g) c with
+            | None => (m, Raise OtherError, [])
+            | Some (c', y) => ((gs, set_nth its i (IFlat g fwd c')), Ok y, [])
+            end
+        | Some (IRec fwd rc) =>
+            match rnext (subs_for fwd) fwd gs rc with
+            | None => (m, Raise OtherError, [])
+            | Some (rc', y, ev) => ((gs, set_nth its i (IRec fwd rc')), Ok y, map cb_code ev)
+            end
+        end
+    | REdit g ed =>
+        let '(s', r) := apply_edit ed (gs g) in
+        ((upd gs g s', its), match r with Ok _ => Ok None | Raise x => Raise x end, [])
+    end.
+
+  Definition robs := (res (option elt) * list nat * list (list elt))%type.
+  Fixpoint lists_of (gs : forest) (ids : list gid) : option (list (list elt)) :=
+    match ids with
+    | [] => Some []
+    | g :: t => match list_of true (gs g), lists_of gs t with
+                | Some l, Some r => Some (l :: r)
+                | _, _ => None
+                end
+    end.
+  Definition robs_eqb (a b : robs) : bool :=
+    let '(r1, c1, l1) := a in let '(r2, c2, l2) := b in
+    res_eqb (option_eqb Nat.eqb) r1 r2 && lst_eqb c1 c2 && list_eqb lst_eqb l1 l2.
+
+  Fixpoint ragree_from (ids : list gid) (m : rmstate) (tr : list (rev_ * robs)) : bool :=
+    match tr with
+    | [] => true
+    | (e, o) :: rest =>
+        let '(m', r, cbs) := rrun_ev m e in
+        match lists_of (fst m') ids with
+        | Some ls => robs_eqb (r, cbs, ls) o && ragree_from ids m' rest
+        | None => false
+        end
+    end.
+End RecRun.
+
+Fixpoint init_forest (inits : list (list elt)) (g : gid) : forest :=
+  match inits with
+  | [] => fun _ => empty
+  | l :: t => upd (init_forest t (S g)) g (extend l empty)
+  end.
+(* a case: subs tables, initial node lists of graphs 0..n-1, observed trace *)
+Definition RCASE (tf tb : list (elt * list gid)) (inits : list (list elt)) (tr : list (rev_ * robs)) :=
+  (tf, tb, inits, tr).
+Definition ragree (c : list (elt * list gid) * list (elt * list gid) * list (list elt) * list (rev_ * robs)) : bool :=
+  let '(tf, tb, inits, tr) := c in
+  ragree_from tf tb (seq 0 (length inits)) (init_forest inits 0, []) tr.
+Definition REV (e : rev_) (r : res (option elt)) (cbs : list nat) (ls : list (list elt)) : rev_ * robs :=
+  (e, (r, cbs, ls)).
